@@ -164,28 +164,33 @@ def run(chk):
                 for op in ((), ('nu',), ('th',)):
                     if not thorough and pk and op:
                         continue
-                    cfg = {"loss": eq_type, "outputs": m_u, "obs_slice": str(sl), "param_batch": list(pk), "observed_params": list(op)}
+                    for wk in (('scalar', 'vector') if (sl is None and m_u > 1 and not op) else ('scalar',)):
+                        cfg = {"loss": eq_type, "outputs": m_u, "obs_slice": str(sl), "param_batch": list(pk), "observed_params": list(op)}
+                        if wk == 'vector':
+                            cfg["weight"] = "per component"
 
-                    def go(eq_type=eq_type, m_u=m_u, sl=sl, pk=pk, op=op):
-                        S = SingleLoss(E, eq_type, 'PINN', d=2, m_u=m_u, terms=('obs',), eq_keys=('nu', 'th'), obs_slice=sl)
-                        rows = "B" if pk else "I"
-                        total, terms = S.evaluate(param_keys=pk, observed_params=op)
-                        w = S.w['observations']
-                        pts = row_point(eq_type, 2 if eq_type != 'ODE' else 0, rows)
-                        if eq_type == 'ODE':
-                            # observed inputs are (rows, 1): the network sees a length-1 time
-                            pts = (tm({rows}),)
-                        prow = row_params(E, S.params, tuple(set(pk) | set(op)), rows)
-                        uv = S.u(*pts, prow)
-                        comps = list(range(m_u))[sl] if sl is not None else list(range(m_u))
-                        acc = Poly()
-                        for j, c in enumerate(comps):
-                            diff = uv.data[c] - Poly.atom(('F', 'obs', j, frozenset({rows})))
-                            acc = acc + w * diff * diff
-                        exp = bind('Mean', rows, acc)
-                        return check_eq(terms['observations'], exp, 'observations')
-                    chk.run("C05.R3", SITE[eq_type] + "->observations_loss_apply", cfg, go,
-                            construct=f"observations[{eq_type}" + (",observed eq_params" if op else "") + "]")
+                        def go(eq_type=eq_type, m_u=m_u, sl=sl, pk=pk, op=op, wk=wk):
+                            S = SingleLoss(E, eq_type, 'PINN', d=2, m_u=m_u, terms=('obs',), eq_keys=('nu', 'th'), obs_slice=sl,
+                                           wkind=wk, wkind_terms=('observations',))
+                            rows = "B" if pk else "I"
+                            total, terms = S.evaluate(param_keys=pk, observed_params=op)
+                            w = S.w['observations']
+                            pts = row_point(eq_type, 2 if eq_type != 'ODE' else 0, rows)
+                            if eq_type == 'ODE':
+                                # observed inputs are (rows, 1): the network sees a length-1 time
+                                pts = (tm({rows}),)
+                            prow = row_params(E, S.params, tuple(set(pk) | set(op)), rows)
+                            uv = S.u(*pts, prow)
+                            comps = list(range(m_u))[sl] if sl is not None else list(range(m_u))
+                            acc = Poly()
+                            for j, c in enumerate(comps):
+                                diff = uv.data[c] - Poly.atom(('F', 'obs', j, frozenset({rows})))
+                                wj = to_at(w).data[j] if (isinstance(w, AT) and w.axes) else w     # a per-component weight weights its own component
+                                acc = acc + wj * diff * diff
+                            exp = bind('Mean', rows, acc)
+                            return check_eq(terms['observations'], exp, 'observations')
+                        chk.run("C05.R3", SITE[eq_type] + "->observations_loss_apply", cfg, go,
+                                construct=f"observations[{eq_type}" + (",observed eq_params" if op else "") + "]")
 
     # ---------------- R4 the solution slice that the normalisation and observation terms select is the one the caller specified
     chk.rule("C05.R4", "the solution components entering the normalisation / observation terms are those given to the network "
